@@ -809,10 +809,26 @@ func layGenText(c *Ctx, i int) {
 	for j := range text {
 		text[j] = Pick(r, alphabet)
 	}
+	// control and boundary characters, runs of one character at the start / middle / end
+	nulFamily := i%6 == 5
+	if nulFamily {
+		alphabet = []rune{0, 0, 1, 0xFFFF, 0x10FFFF, 'A', 'B', ' ', '.'}
+		text = text[:0]
+		for k := r.Range(1, 4); k > 0; k-- {
+			x := Pick(r, alphabet)
+			if len(text) == 0 && r.Chance(2, 3) {
+				x = 0
+			}
+			for m := Pick(r, []int{1, 1, 2, 3}); m > 0; m-- {
+				text = append(text, x)
+			}
+		}
+		n = len(text)
+	}
 	// cmap replacement
 	var cm map[uint16]glyph.ID
 	cmKind := "font"
-	if r.Chance(1, 3) {
+	if r.Chance(1, 3) || nulFamily {
 		cm = map[uint16]glyph.ID{}
 		cmKind = "replaced"
 		for _, x := range alphabet {
@@ -831,6 +847,13 @@ func layGenText(c *Ctx, i int) {
 		if r.Chance(1, 12) && len(text) > 0 { // #34: a glyph index beyond the glyph count
 			cm[uint16(text[0]&0xFFFF)] = glyph.ID(Pick(r, []int{712, 5000, 65535, 651}))
 			cmKind = "replaced-with-bad-gid"
+		}
+		if nulFamily { // many TrueType fonts map U+0000 to a .null glyph
+			cm[0] = glyph.ID(r.Range(1, 700))
+			if r.Bool() {
+				cm[1] = glyph.ID(r.Range(1, 700))
+			}
+			cmKind = "replaced, maps U+0000"
 		}
 		if len(cm) == 0 {
 			cm['x'] = 5
@@ -916,7 +939,12 @@ func layGenText(c *Ctx, i int) {
 	args := fmt.Sprintf("var="+variant+" base=%s cm=%s kern=%s gsw=%s psw=%s lang=%s text=%s fixed=%s ng=%d map=%s w=%s", base, layShowCm(cm), kernArg,
 		layShowSw(gsw), layShowSw(psw), Pick(r, []string{"en", "de", "ja", "und", "tr"}), layJoin(textInts, ","), fx, ng, mapArg, wArg)
 	out := c.Case(Verdict, "layout.text", args, n >= 2)
-	if cmx != "" {
+	if nulFamily {
+		// D: every character, U+0000 at the start of the string included, is mapped through the cmap
+		// (expected value computed from the cmap answers for the characters of the text)
+		c.Case(Direct, "layout.textd", args, n >= 2)
+		c.Stat("text.control_chars", map[bool]string{true: "starts with U+0000", false: "other"}[len(text) > 0 && text[0] == 0])
+	} else if cmx != "" {
 		// D: every font sfnt.Read accepts gets a Layouter that maps the text through the best DECODABLE
 		// cmap subtable, with the ligatures / kerning of the same font without the undecodable subtable
 		// (the expected value is computed from that font's facts)
